@@ -234,6 +234,37 @@ pub fn run(ctx: &Ctx, rep: &mut Report) {
         );
         rep.require_class("scan-path", "date-change-inside-a-record", 50);
     }
+    {
+        use proptest::prelude::*;
+        let stamp = || {
+            (
+                prop_oneof![3 => 1u16..=65_535, 1 => Just(1u16), 1 => Just(65_535u16), 2 => 19_999u16..=20_001],
+                prop_oneof![2 => 0u32..86_400_000, 1 => Just(0u32), 1 => Just(86_399_999u32)],
+            )
+        };
+        rep.prop(
+            "segment-runs",
+            "proptest: 1..8 frames of one fixed-length type (2, 3, 5, 13, 15, 18, 32, random) forming segments 1..n of n (or all '1 of 1', or numbered downwards), each header with its own (day count, time), optionally behind frames of another type, decoded by decode_messages and Record::messages; oracle = every message's header date-time is the closed form of its own header; non-trivial = a well-formed run of >= 2 segments with >= 2 different instants",
+            ctx.tier.pick(4_000, 200_000),
+            move || {
+                (
+                    prop_oneof![1 => Just(2u8), 1 => Just(3u8), 1 => Just(5u8), 2 => Just(13u8), 3 => Just(15u8), 2 => Just(18u8), 1 => Just(32u8), 1 => any::<u8>().prop_filter("fixed-length", |t| *t != 31)],
+                    proptest::collection::vec(stamp(), 1..=8),
+                    prop_oneof![3 => Just(0u8), 1 => Just(1u8), 1 => Just(2u8)],
+                    0u8..3,
+                )
+                    .prop_map(|(mtype, stamps, numbering, lead)| SegmentRunCase { mtype, stamps, numbering, lead })
+            },
+            |c: &SegmentRunCase| {
+                let mut distinct = c.stamps.clone();
+                distinct.sort();
+                distinct.dedup();
+                CaseInfo::new(c.numbering % 3 == 0 && c.stamps.len() >= 2 && distinct.len() >= 2).class(c.numbering % 3 == 0 && c.stamps.len() >= 2, "well-formed-multi-segment-run")
+            },
+            check_segment_run,
+        );
+        rep.require_class("segment-runs", "well-formed-multi-segment-run", 100);
+    }
     rep.trust("closed-form epoch arithmetic (d-1)*86_400_000 + t and Hinnant civil_from_days in harness/src/model.rs");
     rep.trust("independent wire encoder harness/src/wire.rs (field offsets of the date/time carriers)");
     rep.assume("chrono's DateTime::timestamp_millis and calendar field getters are used only to read the value the accessor returned");
@@ -511,7 +542,59 @@ pub fn check_scan_path(c: &ScanPathCase) -> Check {
     Ok(())
 }
 
+/// Message headers reached through `decode_messages` / `Record::messages` as part of a multi-segment run: frames of one
+/// fixed-length type whose headers carry segment k of n and their *own* (day count, time) pair. Every returned message
+/// must carry its own header's instant (continuation segments are stamped individually on the wire).
+#[derive(Clone, Debug, serde::Serialize, serde::Deserialize)]
+pub struct SegmentRunCase {
+    pub mtype: u8,
+    pub stamps: Vec<(u16, u32)>,
+    /// segment numbering: 0 = 1..=n of n (a well-formed run), 1 = all "1 of 1", 2 = n..=1 descending
+    pub numbering: u8,
+    /// frames of another type in front of the run
+    pub lead: u8,
+}
+
+pub fn check_segment_run(c: &SegmentRunCase) -> Check {
+    let n = c.stamps.len();
+    let mut stream = Vec::new();
+    let mut specs = Vec::new();
+    for k in 0..c.lead as usize % 3 {
+        let h = wire::MsgHeaderSpec { rpg: [0; 12], size: 1208, channel: 8, mtype: 3, seq: k as u16, date: 20_000, time: 5, seg_count: 1, seg_num: 1 };
+        specs.push(h.clone());
+    }
+    for (i, (d, t)) in c.stamps.iter().enumerate() {
+        let (count, num) = match c.numbering % 3 {
+            0 => (n as u16, i as u16 + 1),
+            1 => (1, 1),
+            _ => (n as u16, (n - i) as u16),
+        };
+        specs.push(wire::MsgHeaderSpec { rpg: [0; 12], size: 1208, channel: 8, mtype: c.mtype, seq: 100 + i as u16, date: (*d).max(1), time: *t % 86_400_000, seg_count: count, seg_num: num });
+    }
+    for h in &specs {
+        let mut frame = h.encode().to_vec();
+        frame.resize(2432, 0);
+        stream.extend_from_slice(&frame);
+    }
+    let direct = no_panic("decode_messages", || nexrad_decode::messages::decode_messages(&mut Cursor::new(&stream[..])))?
+        .map_err(|e| Fail::new("segment-run:wellformed-stream-rejected", format!("{:?}", e)))?;
+    let via_record = no_panic("Record::messages", || nexrad_data::volume::Record::new(stream.clone()).messages())?
+        .map_err(|e| Fail::new("segment-run:wellformed-stream-rejected", format!("Record::messages: {:?}", e)))?;
+    for (path, msgs) in [("decode_messages", &direct), ("Record::messages", &via_record)] {
+        ensure_eq!(msgs.len(), specs.len(), "segment-run:message-count", "{}", path);
+        for (i, (m, h)) in msgs.iter().zip(specs.iter()).enumerate() {
+            let want = epoch_millis(h.date, h.time as u64);
+            let got = m.header().date_time().map(|d| d.timestamp_millis());
+            ensure_eq!(got, Some(want), "wrong-instant:segment-run", "{}: message {} of {} (type {}, segment {} of {}, day count {}, time {} ms)", path, i, specs.len(), h.mtype, h.seg_num, h.seg_count, h.date, h.time);
+        }
+    }
+    Ok(())
+}
+
 pub fn replay(sub: &str, case: &Value) -> Check {
+    if sub == "segment-runs" {
+        return check_segment_run(&from_case::<SegmentRunCase>(case)?);
+    }
     if sub == "scan-path" {
         return check_scan_path(&from_case::<ScanPathCase>(case)?);
     }
